@@ -21,6 +21,7 @@ use std::panic::{AssertUnwindSafe, catch_unwind};
 
 mod derive;
 mod json;
+mod jtyped;
 mod strs;
 
 pub type Val = OpaqueValue<RootedThread, Hole>;
@@ -303,6 +304,7 @@ enum Case {
     Str(strs::StrCase),
     Derive(derive::DCase),
     Json(json::JCase),
+    JTyped(jtyped::TCase),
 }
 
 impl Case {
@@ -311,7 +313,7 @@ impl Case {
             Case::Map(_) => "map",
             Case::Arr(_) | Case::Str(_) => "array-string",
             Case::Derive(_) => "derive",
-            Case::Json(_) => "json",
+            Case::Json(_) | Case::JTyped(_) => "json",
             _ => "list",
         }
     }
@@ -329,6 +331,7 @@ impl Case {
             Case::Str(c) => c.line(),
             Case::Derive(c) => c.line(),
             Case::Json(c) => c.line(),
+            Case::JTyped(c) => c.line(),
         }
     }
     fn parse(line: &str) -> Option<Case> {
@@ -358,6 +361,8 @@ impl Case {
             "str" if rest.len() == 6 => Case::Str(strs::StrCase::parse(&rest)?),
             "derive" if rest.len() == 4 => Case::Derive(derive::DCase::parse(&rest)?),
             "json" if rest.len() == 1 => Case::Json(json::JCase::parse(&rest)?),
+            "jsontext" if rest.len() == 2 => Case::Json(json::JCase::parse_text(&rest)?),
+            "jtyped" if rest.len() == 4 => Case::JTyped(jtyped::TCase::parse(&rest)?),
             _ => return None,
         })
     }
@@ -391,7 +396,7 @@ impl Case {
             }
             Case::Arr(c) => c.shrinks().into_iter().map(Case::Arr).collect(),
             Case::Str(c) => c.shrinks().into_iter().map(Case::Str).collect(),
-            Case::Derive(_) | Case::Json(_) => vec![],
+            Case::Derive(_) | Case::Json(_) | Case::JTyped(_) => vec![],
         }
     }
     fn nontrivial(&self) -> bool {
@@ -403,6 +408,7 @@ impl Case {
             Case::Str(c) => c.nontrivial(),
             Case::Derive(c) => c.nontrivial(),
             Case::Json(c) => c.nontrivial(),
+            Case::JTyped(c) => c.nontrivial(),
         }
     }
 }
@@ -423,6 +429,7 @@ fn run_impl(vm: &mut Vm, c: &Case) -> String {
         Case::Str(a) => return strs::run_str(vm, a),
         Case::Derive(a) => return derive::run(vm, a),
         Case::Json(a) => return json::run(vm, a),
+        Case::JTyped(a) => return jtyped::run(vm, a),
         _ => {}
     }
     let li = Shape::List(Box::new(Shape::Int));
@@ -437,7 +444,7 @@ fn run_impl(vm: &mut Vm, c: &Case) -> String {
         Case::LFoldl(xs) => vm.list_foldl.call(xs.clone()).map(|v| v.to_string()),
         Case::LFoldr(xs) => vm.list_foldr.call(xs.clone()).map(|v| v.to_string()),
         Case::LAppend(xs, ys) => vm.list_append.call(xs.clone(), ys.clone()).map(|v| render(&v, &li)),
-        Case::Arr(_) | Case::Str(_) | Case::Derive(_) | Case::Json(_) => unreachable!(),
+        Case::Arr(_) | Case::Str(_) | Case::Derive(_) | Case::Json(_) | Case::JTyped(_) => unreachable!(),
     }));
     match r {
         Ok(Ok(s)) => s,
@@ -489,6 +496,7 @@ fn run_oracle(c: &Case) -> String {
         Case::Str(c) => strs::oracle_str(c),
         Case::Derive(c) => derive::oracle(c),
         Case::Json(c) => json::oracle(c),
+        Case::JTyped(c) => jtyped::oracle(c),
     }
 }
 
@@ -498,6 +506,7 @@ fn property_failure(c: &Case, impl_line: &str) -> Option<(String, String)> {
     match c {
         Case::Derive(d) => derive::property(d, impl_line),
         Case::Json(j) => json::property(j, impl_line),
+        Case::JTyped(j) => jtyped::property(j, impl_line),
         _ => None,
     }
 }
@@ -630,7 +639,8 @@ fn main() {
         }
         match &c {
             Case::Derive(d) => println!("gluon source:\n{}", derive::source(d)),
-            Case::Json(j) => println!("gluon source:\n{}", json::source(j)),
+            Case::Json(j) => println!("gluon source (called with the float leaves / the text bytes):\n{}", json::source(j).0),
+            Case::JTyped(j) => println!("gluon source (called with the float leaves):\n{}", jtyped::source(j).0),
             _ => {}
         }
         println!("expected: {}", v["expected"].as_str().unwrap_or("?"));
@@ -701,8 +711,14 @@ fn main() {
     for _ in 0..(600 * scale) {
         cases.push(Case::Derive(derive::gen_case(&mut rng, &mut hist)));
     }
-    for _ in 0..(500 * scale) {
+    for _ in 0..(300 * scale) {
         cases.push(Case::Json(json::gen_case(&mut rng, &mut hist)));
+    }
+    for _ in 0..(150 * scale) {
+        cases.push(Case::Json(json::gen_text_case(&mut rng, &mut hist)));
+    }
+    for _ in 0..(250 * scale) {
+        cases.push(Case::JTyped(jtyped::gen_case(&mut rng, &mut hist)));
     }
     if let Some(f) = &only {
         cases.retain(|c| c.family() == f);
